@@ -94,13 +94,13 @@ class AddressType(StringType, prim='address'):
     def __repr__(self):
         return f'{self.value[:6]}…{self.value[-3:]}'
 
+    def _sort_key(self):
+        # NOTE: implicit < originated < rollup, then raw hash, then entrypoint name (where absent means default)
+        address, _, entrypoint = self.value.partition('%')
+        return forge_address(address), entrypoint or 'default'
+
     def __lt__(self, other: 'AddressType') -> bool:  # type: ignore
-        if is_pkh(self.value) and is_kt(other.value):
-            return True
-        elif is_kt(self.value) and is_pkh(other.value):
-            return False
-        else:
-            return self.value < other.value
+        return self._sort_key() < other._sort_key()
 
     @classmethod
     def dummy(cls, context: AbstractContext) -> 'AddressType':
